@@ -55,7 +55,71 @@ func lambdaSpecials() []*big.Int {
 		oracle.Beta,
 	}
 
+	// stored form adjacent to the Montgomery form of 1 (R mod p = {0x1000003d1,0,0,0}): equal to it in three limbs. This
+	// is what an "is z == 1" fast path that drops or duplicates a limb confuses with 1.
+	oneM := oracle.ToMont(big.NewInt(1), p)
+	for i := 0; i < 4; i++ {
+		for _, d := range []uint64{1, 1 << 63, ^uint64(0)} {
+			l := oneM
+			l[i] ^= d
+
+			if oracle.FromLimbs(l).Cmp(p) < 0 && oracle.FromLimbs(l).Sign() != 0 {
+				out = append(out, oracle.FromMont(l, p))
+			}
+		}
+	}
+
 	return out
+}
+
+// OneAdjacentLambdas returns only the scale factors whose stored form equals the stored form of 1 in three limbs.
+func OneAdjacentLambdas() []*big.Int {
+	p := oracle.P
+	oneM := oracle.ToMont(big.NewInt(1), p)
+
+	var out []*big.Int
+
+	for i := 0; i < 4; i++ {
+		for _, d := range []uint64{1, 2, 1 << 32, 1 << 63, ^uint64(0), 0x5555555555555555} {
+			l := oneM
+			l[i] ^= d
+
+			if oracle.FromLimbs(l).Cmp(p) < 0 && oracle.FromLimbs(l).Sign() != 0 {
+				out = append(out, oracle.FromMont(l, p))
+			}
+		}
+	}
+
+	return out
+}
+
+// SameLine returns another curve point on the line of slope m through p (so that m*x - y is the same for both), if
+// the line meets the curve in further rational points. Points related this way defeat equality tests that compare a
+// linear combination of the coordinates instead of both coordinates.
+func SameLine(pt oracle.Pt, m *big.Int) (oracle.Pt, bool) {
+	if pt.IsInf() || pt.X.Sign() == 0 {
+		return oracle.Pt{}, false
+	}
+
+	// y = m x + b ; (m x + b)^2 = x^3 + 7  =>  x^3 - m^2 x^2 - 2 m b x + (7 - b^2) = 0
+	b := oracle.FSub(pt.Y, oracle.FMul(m, pt.X))
+	sum := oracle.FSub(oracle.FSqr(m), pt.X)                                                // r1 + r2
+	prod := oracle.FMul(oracle.FSub(oracle.FSqr(b), big.NewInt(7)), oracle.FInv0(pt.X)) // r1 * r2
+	disc := oracle.FSub(oracle.FSqr(sum), oracle.FMul(big.NewInt(4), prod))
+
+	rt, ok := oracle.FSqrt(disc)
+	if !ok {
+		return oracle.Pt{}, false
+	}
+
+	x := oracle.FMul(oracle.FAdd(sum, rt), oracle.FInv0(big.NewInt(2)))
+	q := oracle.Pt{X: x, Y: oracle.FAdd(oracle.FMul(m, x), b)}
+
+	if !oracle.OnCurve(q) || q.Equal(pt) {
+		return oracle.Pt{}, false
+	}
+
+	return q, true
 }
 
 // StructuredReprs returns the deterministic list of representations for a value.
